@@ -552,6 +552,28 @@ def nodecross_bounded(run):
         'the real method'))
 
 
+def errors_bounded(run):
+    try:
+        rc, out, err = run_native([os.path.join(
+            VERIF, 'checks', 'errors_native.py')], run.repo, timeout=300)
+        r = json.loads(out)
+    except Exception as ex:      # noqa
+        run.broken.append('error-position stand-in failed to run: %r' % (
+            ex,))
+        return
+    run.bounded.append(Bounded(
+        'error-positions-end-to-end', '3 hierarchy-free class models (nested '
+        'classes with an enum and a list; a list of mappings as document '
+        'type; look-alike attribute names) x one valid block document each x '
+        '35 single-point corruptions (wrong scalar type, misspelt key, '
+        'dropped required key, added key, unknown enum member incl. members '
+        'spelt like YAML booleans)', r['evaluations'], r['failures'],
+        'the real load function: the RecognitionError cites at least one '
+        'position, only positions inside the document, one on the line of '
+        'the corrupted node / its key / the start of the enclosing mapping, '
+        'and names an unknown or missing key'))
+
+
 def json_bounded(run):
     try:
         rc, out, err = run_native([os.path.join(
@@ -763,8 +785,12 @@ def finish(run, prop, t0, write_baseline=False):
                 # these carry their own validated witnesses
                 run.violations.append((it.group, path, bool(
                     it.witness.get('validated', True))))
-            elif '::escape:' in it.group and (
+            elif ('::escape:' in it.group or '::frame:' in it.group) and (
                     it.function in base_digests) and base_groups:
+                # (frame) the function stored nothing outside its modifies
+                # clause on the pinned tree (no such obligation existed, or
+                # it was discharged); now a store changes a node the
+                # contract says is left alone
                 # "no other exception escapes" held for this function on the
                 # pinned tree (no such path existed); now a path lets one out
                 run.violations.append((it.group, path, False))
